@@ -9,10 +9,67 @@ A local whose address is taken mutably, or that is assigned in any other way, be
 KEEP_VARIANT = ("map_err", "map", "as_ref", "as_mut", "as_deref", "cloned", "copied", "inspect", "inspect_err")
 
 
+# Fields written through a reference whose target is not itself known (`self.continues = x` with `self: &mut Self`) are kept under
+# pseudo-locals: negative store keys, one per (base local, field path). They are forgotten at every call and at every write through
+# any other dereference (which may alias), so they only ever describe what straight-line code between two such points stored.
+_PSEUDO = {}
+_PSEUDO_REV = {}
+
+
+def _field_path(p):
+    """(`*`, `.k`, `.j`, ..) -> (k, j, ..) when the projection is one deref followed by plain fields only; else None"""
+    if not p or p[0] != "*": return None
+    out = []
+    for e in p[1:]:
+        if not e.startswith("."): return None
+        try: out.append(int(e[1:].split("#")[0]))
+        except ValueError: return None
+    return tuple(out) if out else None
+
+
+def _pseudo_key(l, fpath, create=True):
+    k = (l, fpath)
+    if k not in _PSEUDO:
+        if not create: return None
+        _PSEUDO[k] = -(len(_PSEUDO) + 1); _PSEUDO_REV[_PSEUDO[k]] = k
+    return _PSEUDO[k]
+
+
+def _base_of(store, l):
+    """the local a plain reborrow chain of `l` leads back to (`_7 = &*_1; _31 = move _7` -> 1)"""
+    n = 0
+    while n < 8:
+        v = store.get(l)
+        if v is not None and v[0] == "reborrow": l = v[1]; n += 1; continue
+        break
+    return l
+
+
+def _forget_fields(store):
+    if any(k < 0 for k in store): return {k: v for k, v in store.items() if k >= 0}
+    return store
+
+
 def read_place(store, place):
     """abstract value of a place: follows `as Variant#i` / `.k` projections into a known aggregate"""
+    p = place.p
+    if p and p[0] == "*" and len(p) > 1:
+        # a field stored earlier through the same reference
+        base = _base_of(store, place.l)
+        for n in range(len(p), 1, -1):
+            fp = _field_path(p[:n])
+            if fp is None: continue
+            k = _pseudo_key(base, fp, create=False)
+            if k is not None and k in store:
+                v = store[k]
+                return _project(store, v, p[n:])
     v = store.get(place.l)
-    i = 0; p = place.p
+    if v is not None and v[0] == "reborrow": return v if not p else None
+    return _project(store, v, p)
+
+
+def _project(store, v, p):
+    i = 0
     while v is not None and i < len(p):
         e = p[i]
         if e == "*":
@@ -119,7 +176,29 @@ def step_stmt(store, s):
     if s.kind == "assign":
         lhs = s.lhs
         if lhs.p:
-            # writing a field does not change the variant; a write through the local's own deref or a downcast write keeps it
+            if "*" not in lhs.p:
+                # writing a field of a local does not change its variant; the field's old value is no longer what the store says
+                v0 = store.get(lhs.l)
+                if v0 is not None and v0[0] == "var" and len(v0) > 2 and v0[2] is not None and lhs.p[0].startswith("."):
+                    try: k = int(lhs.p[0][1:].split("#")[0])
+                    except ValueError: k = None
+                    if k is not None and k < len(v0[2]) and v0[2][k] is not None:
+                        nv = None
+                        if len(lhs.p) == 1 and s.rv == "use" and s.ops:
+                            o = s.ops[0]; nv = const_value(o) if o.is_const else (read_place(store, o.place) if o.place is not None else None)
+                        store = dict(store); store[lhs.l] = ("var", v0[1], tuple(nv if i == k else x for i, x in enumerate(v0[2])))
+                return store
+            # a store through a reference: remember the field when the path is `(*base).f.g`, forget everything that may alias
+            fp = _field_path(lhs.p)
+            store = _forget_fields(store)
+            if fp is not None:
+                nv = None
+                if s.rv == "use" and s.ops:
+                    o = s.ops[0]; nv = const_value(o) if o.is_const else (read_place(store, o.place) if o.place is not None else None)
+                elif s.rv == "agg" and isinstance(s.agg, dict) and "vidx" in s.agg and s.agg.get("adt"):
+                    nv = ("var", s.agg["vidx"], tuple(const_value(o) if o.is_const else read_place(store, o.place) for o in s.ops))
+                if nv is not None:
+                    store = dict(store); store[_pseudo_key(_base_of(store, lhs.l), fp)] = nv
             return store
         l = lhs.l
         val = None
@@ -142,6 +221,7 @@ def step_stmt(store, s):
             elif s.rplace.p == ("*",):
                 v0 = store.get(s.rplace.l)
                 if v0 is not None and v0[0] in ("ref", "refto"): val = v0          # reborrow
+                elif v0 is None or v0[0] == "reborrow": val = ("reborrow", _base_of(store, s.rplace.l))          # of a reference whose target is not known
             elif not (s.bk and "mut" in str(s.bk).lower()):
                 v0 = read_place(store, s.rplace)
                 if v0 is not None: val = ("refto", v0)          # shared borrow of a known part: the target is frozen while it lives
@@ -172,6 +252,7 @@ def step_block(body, store, b):
 
 def step_term(store, t):
     """store after the terminator's own effect (call destination)"""
+    if t.kind in ("call", "drop"): store = _forget_fields(store)          # anything holding a `&mut` may have stored into the fields
     if t.kind != "call" or t.dest is None: return store
     d = t.dest
     val = None
@@ -244,7 +325,26 @@ def feasible_succs(store, t, succs):
 def refine_on_edge(body, du, store, src, lab, dst):
     """what taking the edge (src, lab, dst) of a switch tells about the value it tested"""
     t = body.blocks[src].term
-    if t.kind != "switch" or lab == "otherwise" or t.discr is None or t.discr.place is None or t.discr.place.p: return store
+    if t.kind != "switch" or t.discr is None or t.discr.place is None: return store
+    if t.discr.place.p:
+        # a switch on one field of a known tuple/struct value (`match (a, b, c) { .. }`): remember what the edge says about that field
+        pl = t.discr.place
+        if len(pl.p) == 1 and pl.p[0].startswith("."):
+            v = store.get(pl.l)
+            try: k = int(pl.p[0][1:].split("#")[0])
+            except ValueError: return store
+            if v is not None and v[0] == "var" and len(v) > 2 and v[2] is not None and k < len(v[2]):
+                val = None
+                if lab != "otherwise": val = ("int", lab)
+                elif len(t.targets) == 1 and t.targets[0][0] in (0, 1) and ("bool" in str(body.ty(pl.l)) or True):
+                    # two-way switch on a bool field: the other edge is the other value (only when the field is a bool: its listed value is 0)
+                    fty = _field_ty(body, pl)
+                    if fty == "bool": val = ("int", 1 - t.targets[0][0])
+                if val is not None and v[2][k] != val:
+                    nv = ("var", v[1], tuple(val if i == k else x for i, x in enumerate(v[2])))
+                    store = dict(store); store[pl.l] = nv
+        return store
+    if lab == "otherwise": return store
     l = t.discr.place.l
     store = dict(store); store[l] = ("int", lab)
     ds = du.defs.get(l, [])
@@ -254,6 +354,22 @@ def refine_on_edge(body, du, store, src, lab, dst):
             old = store.get(s.rplace.l)
             if not (old is not None and old[0] == "var" and old[1] == lab): store[s.rplace.l] = ("var", lab, None)
     return store
+
+
+def _field_ty(body, place):
+    """type of `_l.k` when `_l` is a tuple local whose type text is `(A, B, C)`; None when unknown"""
+    ty = str(body.ty(place.l)).strip()
+    if not (ty.startswith("(") and ty.endswith(")")): return None
+    inner = ty[1:-1]; parts = []; depth = 0; cur = ""
+    for ch in inner:
+        if ch in "(<[": depth += 1
+        elif ch in ")>]": depth -= 1
+        if ch == "," and depth == 0: parts.append(cur.strip()); cur = ""
+        else: cur += ch
+    if cur.strip(): parts.append(cur.strip())
+    try: k = int(place.p[0][1:].split("#")[0])
+    except ValueError: return None
+    return parts[k] if k < len(parts) else None
 
 
 def sens_reach(cfg, du, starts, blocked_nodes=(), blocked_edges=(), limit=60000):
